@@ -14,7 +14,13 @@ package main
 //	if c { ...; return } rest                    ->  if c then ... else rest       (a branch that returns ends the computation)
 //	err = ErrX; return  /  return nil, errX      ->  ierr E_x           (fmt.Errorf without %w: E_generic)
 //	return (bare, or `return v, nil`)            ->  iret (results)
-//	x.f.g = e  through a pointer field           ->  nested record update under Some
+//	x.f = e / x.f.g = e through a pointer field  ->  let x := set_T_f e x / set_T_f (Some (set_U_g e (odflt zero_U (T_f x)))) x
+//	                                                 (the setters set_T_f are emitted at the head of Gen/ParseGen.v)
+//
+//	intN(x) for x of an unsigned type at least N bits wide          ->  sint N x  (two's complement reading)
+//	bs[k]                                                            ->  nth k bs 0, accepted only for a constant k below the
+//	                                                                     constant length bs was read with (no panic possible)
+//	s != nil && s(p) on a callback parameter `func(*T) bool`         ->  match s with Some f => f p | None => false end
 //
 // Conventions: a pointer result `*T` is the record T (a success return with a possibly nil pointer result is refused);
 // a dereference through a pointer-typed field or result is accepted only where the pointer is statically known to be
